@@ -271,3 +271,40 @@ def gen_hostile_bytes(rng, valid_pool):
         a, b = rng.choice(valid_pool), rng.choice(valid_pool)
         return a[:rng.randrange(len(a) + 1)] + b[rng.randrange(len(b) + 1):]
     return rng.choice(valid_pool) + bytes(rng.getrandbits(8) for _ in range(rng.randrange(0, 4)))
+
+
+# ------------------------------------------------------------------ hostile exception records (C07 / C09)
+def gen_exc_payload(rng, vocab):
+    """something a hostile peer may send as the args of MSG_EXCEPTION. vocab: canary_module, ctor_class=(mod, cls)"""
+    mods = [vocab["canary_module"], "rv_evil_%d" % rng.randrange(5), "builtins", "os", "subprocess", "pickle", "sys",
+            vocab["ctor_class"][0], "rpyc.core.vinegar", "", "builtins.os", b"builtins", 7, None, ("builtins",), "a" * 300]
+    clss = ["Evil", "eval", "exec", "open", "system", "Popen", "SystemExit", "KeyboardInterrupt", "ValueError", "type", "object",
+            "BaseException", "Exception", vocab["ctor_class"][1], "GenericException", "_get_exception_class", "__import__",
+            "ExceptionGroup", "UnicodeDecodeError", "OSError", "", b"ValueError", 3, None, "__class__", "a.b"]
+    attr_names = ["__class__", "__dict__", "args", "__init__", "__new__", "_remote_tb", "_remote_version", "__cause__",
+                  "__context__", "__traceback__", "__suppress_context__", "with_traceback", "errno", "x", "", 5, None,
+                  "__setattr__", "__reduce__", "__str__", "__module__", "__doc__", "__slots__", "__weakref__", "add_note"]
+    c = rng.randrange(12)
+    if c == 0:
+        return gen_plain(rng, 2, surrogates=False)
+    name = (rng.choice(mods), rng.choice(clss))
+    args = tuple(gen_plain(rng, 3, surrogates=False) for _ in range(rng.randrange(0, 3)))
+    attrs = tuple((rng.choice(attr_names), gen_plain(rng, 3, surrogates=False)) for _ in range(rng.randrange(0, 4)))
+    tb = rng.choice(["tb", "", "\n\n========= Remote Traceback (1) =========\n", "x" * 5000])
+    if c == 1:
+        return (name, args, attrs)                      # wrong arity
+    if c == 2:
+        return (name, args, attrs, tb, "extra")
+    if c == 3:
+        return (rng.choice(mods), args, attrs, tb)      # name not a pair
+    if c == 4:
+        return (name, rng.choice([None, 5, "str", b"b"]), attrs, tb)
+    if c == 5:
+        return (name, args, rng.choice([None, 5, "ab", (1, 2), ((1,),), (("a", 1, 2),)]), tb)
+    if c == 6:
+        return (name, args, attrs, rng.choice([None, 5, b"bytes", ("t",)]))
+    if c == 7:
+        return (name, args, attrs + (("_remote_version", rng.choice([5, None, b"9.9", "9.9.9", ("a",), ""])),), tb)
+    if c == 8:
+        return rng.choice([1, 0, 2, "string exception", b"bytes", (), None, True, 1.0])
+    return (name, args, attrs, tb)
